@@ -75,6 +75,19 @@ func (sig Multi[T]) Len() int {
 	return len(sig)
 }
 
+// hasDuplicateSigner reports whether two entries are from the same signer.
+// Len only counts distinct replicas when this is false.
+func (sig Multi[T]) hasDuplicateSigner() bool {
+	seen := make(map[hotstuff.ID]struct{}, len(sig))
+	for _, s := range sig {
+		if _, ok := seen[s.Signer()]; ok {
+			return true
+		}
+		seen[s.Signer()] = struct{}{}
+	}
+	return false
+}
+
 func (sig Multi[T]) String() string {
 	return hotstuff.IDSetToString(sig)
 }
